@@ -1254,4 +1254,198 @@ theorem UL_mono (S : Schema) : ∀ (os' os oe oe' : Nat) (c : List Node), UL S o
             exact .inr ⟨hr, UL_mono S os' os0 0 0 k hu (by omega) (Nat.le_refl _) (by omega) (Nat.zero_le _),
               RL_mono S oe oe' rest hrl hle2 hsp⟩
 
+/-! ### the invariant on the unplaced slice, and its invariance -/
+
+/-- the unplaced slice is loosely valid for open depths no deeper than its own (with `Slice.wf`: for its own, `UL_mono`) -/
+def UInv (S : Schema) (u : Slice) : Prop :=
+  ∃ os0 oe0, os0 ≤ u.openStart ∧ oe0 ≤ u.openEnd ∧ UL S os0 oe0 u.content
+
+theorem UInv_full (S : Schema) (u : Slice) (h : UInv S u) (hwf : u.wf = true) :
+    UL S u.openStart u.openEnd u.content := by
+  obtain ⟨os0, oe0, h1, h2, h3⟩ := h
+  simp only [Slice.wf, Bool.and_eq_true, decide_eq_true_eq] at hwf
+  exact UL_mono S _ _ _ _ _ h3 h1 h2 hwf.1 hwf.2
+
+theorem placeRest_UInv (S : Schema) (u : Slice) (sd taken : Nat) (F : List Node)
+    (hfull : UL S u.openStart u.openEnd u.content) (hsd : sd ≤ u.openStart) (hcon : contentAt u.content sd = .ok F)
+    (hU1 : u.openEnd ≤ spineR u.content) (u' : Slice)
+    (h : placeRest u sd taken (taken == F.length)
+      (if (taken == F.length) = true then ((fsize F : Int) + sd) - ((fsize u.content : Int) - u.openEnd) else -1) = .ok u') :
+    UInv S u' := by
+  unfold placeRest at h
+  cases hte : (taken == F.length) with
+  | false =>
+    simp only [hte, Bool.not_false, if_true] at h
+    obtain ⟨c, hc, h⟩ := FM.bind_ok h
+    have := pure_ok h
+    subst this
+    by_cases h0 : taken = 0
+    · subst h0
+      have := dropFromFragment_zero sd _ c hc
+      subst this
+      exact ⟨_, _, Nat.le_refl _, Nat.le_refl _, hfull⟩
+    · obtain ⟨oe'', hle, hu⟩ := UL_drop S sd _ _ _ c taken hfull hsd (by omega) hc
+      exact ⟨sd, oe'', hsd, hle, hu⟩
+  | true =>
+    simp only [hte, Bool.not_true, Bool.false_eq_true, if_false, if_true] at h
+    split at h
+    · have := pure_ok h
+      subst this
+      exact ⟨0, 0, Nat.le_refl _, Nat.le_refl _, by simp [Slice.empty, UL, RL]⟩
+    · rename_i hsd0
+      have hsd1 : 1 ≤ sd := by
+        rcases Nat.eq_zero_or_pos sd with h0 | h0
+        · subst h0; simp at hsd0
+        · exact h0
+      obtain ⟨c, hc, h⟩ := FM.bind_ok h
+      have := pure_ok h
+      subst this
+      by_cases hneg0 : (if (taken == F.length) = true then ((fsize F : Int) + sd) - ((fsize u.content : Int) - u.openEnd) else -1) < 0
+      · obtain ⟨oe'', hle, hu⟩ := UL_drop S (sd - 1) _ _ _ c 1 hfull (by omega) (Nat.le_refl _) hc
+        refine ⟨sd - 1, oe'', Nat.le_refl _, ?_, hu⟩
+        simp only [hte, if_true] at hneg0 ⊢
+        rw [if_pos hneg0]
+        exact hle
+      · simp only [hte, if_true] at hneg0
+        obtain ⟨hp, hs⟩ := UL_pure_of_size S sd _ _ _ F hfull hsd hcon hU1 (by omega)
+        have hp' : pureTo (sd - 1 + 1) u.content F := by rwa [show sd - 1 + 1 = sd by omega]
+        have := UL_drop_pure S (sd - 1) _ _ _ F c hp' hfull (by omega) hc
+        refine ⟨sd - 1, min u.openEnd (sd - 1), Nat.le_refl _, ?_, this⟩
+        simp only [hte, if_true]
+        rw [if_neg hneg0]
+        exact Nat.min_le_right _ _
+
+theorem dropNode_UInv (S : Schema) (st st' : FitState) (hfull : UL S st.unplaced.openStart st.unplaced.openEnd st.unplaced.content)
+    (h : dropNode st = .ok st') : UInv S st'.unplaced ∧ st'.frontier = st.frontier ∧ st'.placed = st.placed := by
+  unfold dropNode at h
+  obtain ⟨inner, hin, h⟩ := FM.bind_ok h
+  split at h
+  · rename_i hcnd
+    simp only [Bool.and_eq_true, decide_eq_true_eq] at hcnd
+    obtain ⟨c, hc, h⟩ := FM.bind_ok h
+    have := pure_ok h
+    subst this
+    refine ⟨?_, rfl, rfl⟩
+    simp only
+    split
+    · rename_i hat
+      simp only [decide_eq_true_eq] at hat
+      rcases UL_pure_or_shallow S st.unplaced.openStart _ _ _ inner hfull (Nat.le_refl _) hin (by omega) with hp | hs
+      · have hp' : pureTo (st.unplaced.openStart - 1 + 1) st.unplaced.content inner := by
+          rwa [show st.unplaced.openStart - 1 + 1 = st.unplaced.openStart by omega]
+        have := UL_drop_pure S (st.unplaced.openStart - 1) _ _ _ inner c hp' hfull (by omega) hc
+        exact ⟨_, _, Nat.le_refl _, Nat.min_le_right _ _, this⟩
+      · obtain ⟨oe'', hle, hu⟩ := UL_drop S (st.unplaced.openStart - 1) _ _ _ c 1 hfull (by omega) (Nat.le_refl _) hc
+        exact ⟨_, oe'', Nat.le_refl _, by simp only; omega, hu⟩
+    · obtain ⟨oe'', hle, hu⟩ := UL_drop S (st.unplaced.openStart - 1) _ _ _ c 1 hfull (by omega) (Nat.le_refl _) hc
+      exact ⟨_, oe'', Nat.le_refl _, hle, hu⟩
+  · obtain ⟨c, hc, h⟩ := FM.bind_ok h
+    have := pure_ok h
+    subst this
+    refine ⟨?_, rfl, rfl⟩
+    obtain ⟨oe'', hle, hu⟩ := UL_drop S st.unplaced.openStart _ _ _ c 1 hfull (Nat.le_refl _) (Nat.le_refl _) hc
+    exact ⟨_, oe'', Nat.le_refl _, hle, hu⟩
+
+theorem placeNodes_unplaced (S : Schema) (st : FitState) (f : Fittable) (st' : FitState)
+    (h : placeNodes S st f = .ok st') :
+    ∃ taken, placeRest st.unplaced f.sliceDepth taken (taken == (f.fragment st.unplaced).length)
+      (if (taken == (f.fragment st.unplaced).length) = true then
+        ((fsize (f.fragment st.unplaced) : Int) + f.sliceDepth) -
+          ((fsize st.unplaced.content : Int) - st.unplaced.openEnd) else -1) = .ok st'.unplaced := by
+  unfold placeNodes at h
+  obtain ⟨c1, _, h⟩ := FM.bind_ok h
+  obtain ⟨c2, _, h⟩ := FM.bind_ok h
+  simp only at h
+  obtain ⟨item, _, h⟩ := FM.bind_ok h
+  obtain ⟨q0, _, h⟩ := FM.bind_ok h
+  obtain ⟨q1, _, h⟩ := FM.bind_ok h
+  obtain ⟨tk, _, h⟩ := FM.bind_ok h
+  obtain ⟨p, _, h⟩ := FM.bind_ok h
+  obtain ⟨top, _, h⟩ := FM.bind_ok h
+  obtain ⟨c3, _, h⟩ := FM.bind_ok h
+  obtain ⟨fr4, _, h⟩ := FM.bind_ok h
+  obtain ⟨u', hu', h⟩ := FM.bind_ok h
+  have := pure_ok h
+  subst this
+  exact ⟨tk.1, hu'⟩
+
+/-- **one iteration of the loop**, whatever the slice: `VInv` and the invariant on the unplaced slice are kept (the
+    unplaced slice well-formed before and after, as `unplacedWfRun` says) -/
+theorem fitStep_vinv_gen (S : Schema) (hts : TextStableP S) (hdet : DetS S) (hf : FillersOK S) (hw : WrapOK S)
+    (hlab : LabelsOK S) (hleaf : PM.FromDom.LeafOk S) (hcl : Closable S) (D g : Nat) (st : FitState) (inv : InStep st)
+    (hv : VInv S D g st.frontier st.placed) (hU : UInv S st.unplaced) (hwf : st.unplaced.wf = true)
+    (hsz : (st.unplaced.size == 0) = false) (st' : FitState) (h : fitStep S st = .ok st') :
+    (∃ g', VInv S D g' st'.frontier st'.placed) ∧ UInv S st'.unplaced := by
+  have hfull := UInv_full S _ hU hwf
+  simp only [Slice.wf, Bool.and_eq_true, decide_eq_true_eq] at hwf
+  unfold fitStep at h
+  obtain ⟨f, hfit, h⟩ := FM.bind_ok h
+  cases f with
+  | some f =>
+    simp only at h
+    refine ⟨placeNodes_vinv_gen S hts hdet hf hw hlab hleaf hcl D g st inv hv hwf.2 hwf.1 hsz hfull f hfit st' h, ?_⟩
+    obtain ⟨lvl, it, hsd, hlvl, hpar, _, _, _⟩ := findFittable_kind S st f hfit
+    have hfragment := fragment_eq_lvl hlvl hpar
+    have hcon := sliceLevel_contentAt hlvl
+    obtain ⟨taken, htk⟩ := placeNodes_unplaced S st f st' h
+    rw [hfragment] at htk
+    exact placeRest_UInv S st.unplaced f.sliceDepth taken lvl.2 hfull hsd hcon hwf.2 _ htk
+  | none =>
+    simp only at h
+    obtain ⟨o, ho, h⟩ := FM.bind_ok h
+    cases o with
+    | some st1 =>
+      have := pure_ok h
+      subst this
+      unfold openMore at ho
+      obtain ⟨inner, _, ho⟩ := FM.bind_ok ho
+      split at ho
+      · simp [pure, Except.pure] at ho
+      · split at ho
+        · simp [pure, Except.pure] at ho
+        · have := pure_ok ho
+          simp only [Option.some.injEq] at this
+          subst this
+          obtain ⟨os0, oe0, h1, h2, h3⟩ := hU
+          exact ⟨⟨g, hv⟩, os0, oe0, by simp only; omega, by simp only; omega, h3⟩
+    | none =>
+      simp only at h
+      obtain ⟨hu', e1, e2⟩ := dropNode_UInv S st st' hfull h
+      exact ⟨⟨g, by rw [e1, e2]; exact hv⟩, hu'⟩
+
+/-- the loop, whatever the slice -/
+theorem fitLoop_vinv_gen (S : Schema) (hts : TextStableP S) (hdet : DetS S) (hf : FillersOK S) (hw : WrapOK S)
+    (hlab : LabelsOK S) (hleaf : PM.FromDom.LeafOk S) (hcl : Closable S) (D : Nat) :
+    ∀ (fuel g : Nat) (st st' : FitState), fitLoop S fuel st = .ok st' → InStep st →
+      VInv S D g st.frontier st.placed → UInv S st.unplaced →
+      fitLoopAll S (fun s => s.unplaced.wf) fuel st = some true →
+      InStep st' ∧ ∃ g', VInv S D g' st'.frontier st'.placed
+  | 0, g, st, st', h, inv, hv, _, _ => by
+    unfold fitLoop at h
+    split at h
+    · have := pure_ok h
+      subst this; exact ⟨inv, g, hv⟩
+    · simp [throw, throwThe, MonadExceptOf.throw] at h
+  | fuel + 1, g, st, st', h, inv, hv, hU, hall => by
+    unfold fitLoop at h
+    split at h
+    · have := pure_ok h
+      subst this; exact ⟨inv, g, hv⟩
+    · rename_i hsz
+      obtain ⟨st1, h1, h⟩ := FM.bind_ok h
+      unfold fitLoopAll at hall
+      rw [if_neg hsz] at hall
+      simp only [h1] at hall
+      cases hr : fitLoopAll S (fun s => s.unplaced.wf) fuel st1 with
+      | none => rw [hr] at hall; simp at hall
+      | some b =>
+        rw [hr] at hall
+        simp only [Option.map_some, Option.some.injEq, Bool.and_eq_true] at hall
+        obtain ⟨hb, hwf⟩ := hall
+        subst hb
+        have hsz' : (st.unplaced.size == 0) = false := by simpa using hsz
+        have inv1 := fitStep_inStep S hdet hf hw hlab st inv hwf hsz' st1 h1
+        obtain ⟨⟨g1, hv1⟩, hU1⟩ := fitStep_vinv_gen S hts hdet hf hw hlab hleaf hcl D g st inv hv hU hwf hsz' st1 h1
+        exact fitLoop_vinv_gen S hts hdet hf hw hlab hleaf hcl D fuel g1 st1 st' h inv1 hv1 hU1 hr
+
 end PM
